@@ -1217,11 +1217,26 @@ func (ex *Exec) ghostStmt(st *State, s ast.Stmt, where string) {
 			if len(call.Args) > 1 {
 				label = strings.Trim(call.Args[1].(*ast.BasicLit).Value, `"`)
 			}
+			if len(call.Args) < 2 {
+				call.Args = append(call.Args, &ast.BasicLit{Kind: token.STRING, Value: `"assert"`})
+			}
+			// assert(e, "label", "from1", "from2", ...): the further strings name
+			// earlier assertions/invariants; the proof is first tried from the
+			// quantifier-free context plus exactly those facts (small, stable query)
+			var only []string
+			for _, a := range call.Args[2:] {
+				if bl, ok := a.(*ast.BasicLit); ok {
+					only = append(only, strings.Trim(bl.Value, `"`))
+				}
+			}
 			g := ex.materialize(ex.expr(st, call.Args[0]), tBool).Term
 			ex.specDepth--
+			ex.curOnly = only
 			ex.oblige(st, "assert", label, token.NoPos, g, nil)
+			ex.curOnly = nil
 			ex.specDepth++
 			st.assume(g)
+			ex.tagAssert(g, label)
 		case "assume":
 			g := ex.materialize(ex.expr(st, call.Args[0]), tBool).Term
 			st.assume(g)
